@@ -31,8 +31,8 @@ func ZZ_C10_Bulk() {
 	for i := 0; i < n; i++ {
 		req = append(req, 1+vChoice("req", zzNK))
 	}
-	mode := vChoice("mode", 3) // 0 ok, 1 error, 2 panic
-	modes := []string{"ok", "error", "panic"}
+	mode := vChoice("mode", 4) // 0 ok, 1 error, 2 panic, 3 an error that wraps ErrNotFound (still a failure of the whole bulk load)
+	modes := []string{"ok", "error", "panic", "error_wrapping_notfound"}
 	vScenario("mode=" + modes[mode])
 
 	// ---- the oracle's expectation ----
@@ -73,8 +73,8 @@ func ZZ_C10_Bulk() {
 	}
 	if nMiss > 0 {
 		s.loads++
-		if mode == 0 {
-			s.loadOK++
+		if mode == 0 || mode == 3 {
+			s.loadOK++ // the recorder counts a not-found outcome as a successful load
 		}
 	}
 	if mode == 0 && nMiss > 0 {
@@ -118,6 +118,9 @@ func ZZ_C10_Bulk() {
 		if mode == 1 {
 			return res, zzErrLoad
 		}
+		if mode == 3 {
+			return res, zzErrWrapsNotFound
+		}
 		return res, nil
 	})
 	var got map[int]int
@@ -145,6 +148,8 @@ func ZZ_C10_Bulk() {
 		vAssert(!panicked, "c10.no_unexpected_panic")
 		if mode == 1 && nMiss > 0 {
 			vAssert(err == zzErrLoad, "c10.error_is_passed_through")
+		} else if mode == 3 && nMiss > 0 {
+			vAssert(err == error(zzErrWrapsNotFound), "c10.error_is_passed_through")
 		} else {
 			vAssert(err == nil, "c10.no_error")
 		}
@@ -168,6 +173,9 @@ func ZZ_C10_Bulk() {
 		vAssert(calls == 0, "c10.canary")
 	}
 }
+
+// zzErrWrapsNotFound: a loader failure whose chain contains ErrNotFound.
+var zzErrWrapsNotFound = &zzIdxErr{idx: -1, notFound: true}
 
 // ZZ_C10_Single: single Get with every loader outcome including panic, from every pre-state.
 func ZZ_C10_Single() {
